@@ -2319,6 +2319,310 @@ def d5_out_dtype(ck):
     ck.floor(rule, n, 6, 'float-valued ufunc calls with out= in info_theory')
 
 
+# ---------------------------------------------------------------------------
+# D9 weighted estimator: ONE weight vector behind marginals and joints
+
+_VIEW_ATTRS = {'T'}
+_VIEW_METHODS = {'reshape', 'ravel', 'flatten', 'squeeze', 'transpose'}
+
+
+def _same_elements(v):
+    """The Name whose elements `v` holds unchanged: a (validated / re-typed)
+    copy, a view with extra unit axes, a reshape or a transpose of it."""
+    while v is not None:
+        n = _passthrough(v)
+        if n is not None:
+            return n
+        if isinstance(v, ast.Attribute) and v.attr in _VIEW_ATTRS:
+            v = v.value
+        elif isinstance(v, ast.Call) and isinstance(v.func, ast.Attribute) and v.func.attr in _VIEW_METHODS and \
+                not (isinstance(v.func.value, ast.Name) and v.func.value.id in _MODULE_ALIASES):
+            v = v.func.value
+        elif isinstance(v, ast.Call) and (call_name(v) or '') in ('np.reshape', 'np.ravel', 'np.squeeze', 'np.transpose', 'np.expand_dims') \
+                and v.args and not isinstance(v.args[0], ast.Starred):
+            v = v.args[0]
+        elif isinstance(v, ast.Subscript) and all(_is_const(i, None) or _is_const(i, Ellipsis) or _full_slice(i) for i in _index_items(v.slice)):
+            v = v.value
+        elif isinstance(v, ast.Call) and (call_name(v) or '') in _PASS_FUNCS | {'np.array'} and v.args and not isinstance(v.args[0], ast.Starred):
+            v = v.args[0]
+        else:
+            return None
+    return None
+
+
+class _Versions:
+    """Which VALUES of one vector-valued parameter W a local may hold.
+
+    A local is a W-vector when every definition that reaches the point of
+    interest is (a) the parameter itself, (b) a copy / view / re-typed form of
+    a W-vector (same elements: the value class of its source), (c) an
+    element-wise rescaling `v / e`, `v * e`, `v op= e` of a W-vector `v`, or
+    any rebinding of W itself computed from a W-vector (a NEW value: the
+    class is the defining statement).  vclass(name, at) is the set of value
+    classes ('PARAM' or a value-changing definition) the name may hold at
+    statement `at`, None when the name is not a W-vector there."""
+
+    def __init__(self, fi, W):
+        self.fi, self.W = fi, W
+        self.memo = {}
+        self.src = {}           # id(value-changing definition) -> value classes of the vector it was computed from
+
+    def vclass(self, name, at, stack=None):
+        stack = set() if stack is None else stack
+        fi = self.fi
+        sites = fi.rd.defs_at(at, name)
+        if not sites:
+            return None
+        out = set()
+        for site in sites:
+            if site == 'PARAM':
+                if name != self.W:
+                    return None
+                out.add('PARAM')
+                continue
+            if site == 'UNBOUND':
+                return None
+            key = (id(site), name)
+            if key in stack:
+                continue                    # loop-carried: adds no class of its own
+            if key not in self.memo:
+                stack.add(key)
+                self.memo[key] = self._one(site, name, stack)
+                stack.discard(key)
+            r = self.memo[key]
+            if r is None:
+                return None
+            out |= r
+        return frozenset(out)
+
+    def _one(self, site, name, stack):
+        fi = self.fi
+        if isinstance(site, ast.AugAssign):
+            prev = self.vclass(name, site, stack) if isinstance(site.target, ast.Name) else None
+            if prev is not None:
+                self.src[id(site)] = prev
+                return {site}
+            return None
+        v = fi.def_value(site, name)
+        if v is None:
+            return None
+        inner = _same_elements(v)
+        if inner is not None:
+            return self.vclass(inner.id, site, stack)
+        if isinstance(v, ast.BinOp) and isinstance(v.op, (ast.Div, ast.Mult)):
+            inner = _same_elements(v.left)
+            prev = self.vclass(inner.id, site, stack) if inner is not None else None
+            if prev is not None:
+                self.src[id(site)] = prev
+                return {site}
+        if name == self.W:
+            prev = set()
+            for n in ast.walk(v):
+                if isinstance(n, ast.Name) and isinstance(n.ctx, ast.Load) and n.id not in _MODULE_ALIASES:
+                    prev |= self.vclass(n.id, site, stack) or set()
+            if prev:
+                self.src[id(site)] = frozenset(prev)
+                return {site}
+        return None
+
+
+def _consumers(fi, V, roots):
+    """Backward DATA slice from the statements `roots` (reaching definitions
+    of every name read + in-place updates of the object that can execute
+    before the reader), cut at the W-vectors: returns [(name node, statement,
+    value classes)] for every read of a W-vector by a statement that is not
+    itself the definition of one - the places where the weights enter the
+    estimate."""
+    from ..cfg import header_uses
+    seen, work, out = set(), list(roots), []
+    while work:
+        s = work.pop()
+        if id(s) in seen or isinstance(s, Assume):
+            continue
+        seen.add(id(s))
+        for n in header_uses(s):
+            if n.id in _MODULE_ALIASES:
+                continue
+            vc = V.vclass(n.id, s)
+            if vc is not None:
+                out.append((n, s, vc))
+                continue
+            for site in fi.rd.defs_at(s, n.id):
+                if site not in ('PARAM', 'UNBOUND'):
+                    work.append(site)
+            for ms in fi._mutated_in_place(n.id):
+                if ms is not s and fi.cfg.reachable(ms, s):
+                    work.append(ms)
+    out.sort(key=lambda t: (getattr(t[0], 'lineno', 0), getattr(t[0], 'col_offset', 0)))
+    return out
+
+
+def _l1_forms(x):
+    return ['np.linalg.norm(%s, ord=1)' % x, 'np.linalg.norm(%s, 1)' % x, '%s.sum()' % x, 'np.abs(%s).sum()' % x, 'abs(%s).sum()' % x,
+            'float(%s.sum())' % x, 'np.sum(%s)' % x, 'np.add.reduce(%s)' % x, 'np.linalg.norm(%s, ord=1, axis=0)' % x]
+
+
+def d9_weighted(ck):
+    """weighted_mi estimates P(x), P(y) and P(x, y) from weighted frames; the
+    identities of the property (bounded by the marginal entropies, equal to
+    the count-based estimator for uniform weights, unchanged by a common
+    factor of the weights) need ONE weight vector behind all of them: every
+    place where the weights enter the returned value reads the same value of
+    the weight vector - in particular no copy, view or rescaled form taken
+    BEFORE the vector is rebound (normalised) may be consumed after it - and
+    the rebinding that normalises is a division by the sum of the weights,
+    skipped only when that sum is already 1."""
+    rule = 'C18.D9.weighted'
+    mod = ck.repo.mod(MI)
+    F = 'weighted_mi'
+    fn = mod.func(F)
+    ck.analysed(mod, fn)
+    P = params(fn)
+    if len(P) < 2:
+        ck.missing(rule, 'signature (features, weights, ...) of weighted_mi')
+        return
+    W = P[1]
+    fi = _fi(mod, fn)
+    V = _Versions(fi, W)
+    roots = [r for r in returns_of(fn) if r.value is not None]
+    cons = _consumers(fi, V, roots)
+    ck.floor(rule + '.one-vector', len(cons), 1, 'places where the weight vector `%s` enters the value returned by weighted_mi' % W)
+    if not cons:
+        return
+    # names that denote a W-vector somewhere, in-place updates of their objects are not versioned by reaching definitions
+    vec_names = {n.id for n, s, vc in cons} | {W}
+    for key, r in V.memo.items():
+        if r is not None:
+            vec_names.add(key[1])
+    inplace = [ms for nm in sorted(vec_names) for ms in fi._mutated_in_place(nm)]
+    if inplace:
+        ck.missing(rule + '.one-vector', 'a weight vector of weighted_mi is updated in place (%s): which readers see the update depends on '
+                   'aliasing, not decided' % u(inplace[0])[:80])
+        return
+
+    def marginal(n, s):
+        for c in calls_in(s.value if isinstance(s, (ast.Assign, ast.Return, ast.Expr, ast.AugAssign)) and s.value is not None else s):
+            if (call_name(c) or '') in ('np.bincount', 'numpy.bincount'):
+                w = kwarg(c, 'weights') or (c.args[1] if len(c.args) > 1 else None)
+                if w is not None and any(x is n for x in ast.walk(w)):
+                    return True
+        return False
+
+    def show(vc):
+        return ', '.join(sorted('the argument' if d == 'PARAM' else '`%s` (line %s)' % (u(d)[:60], getattr(d, 'lineno', '?')) for d in vc))
+
+    full = set()
+    for n, s, vc in cons:
+        full |= set(vc)
+    undecided = False
+    for n, s, vc in cons:
+        role = 'weighted marginal (np.bincount weights=)' if marginal(n, s) else 'weighted joint / product'
+        what = '`%s` read by `%s`' % (n.id, u(s)[:70])
+        # 'PARAM' is never lacking: every other class is computed from it, a reader of the newer value is not stale
+        lacking = [d for d in full if d not in vc and d != 'PARAM']
+        if not lacking:
+            ck.ok(rule + '.one-vector', mod, n, what, '%s reads the weight vector as defined by: %s' % (role, show(vc)))
+            continue
+        # stale: the reader holds exactly what the rebinding d was computed FROM, although d can execute before the reader
+        stale = [d for d in lacking if fi.cfg.reachable(d, s) and d is not s and set(vc) <= set(V.src.get(id(d), ()))]
+        if not stale:
+            undecided = True
+            ck.missing(rule + '.one-vector', '%s at %s sees other definitions of the weight vector (%s) than another consumer (%s) on '
+                       'different branches' % (what, mod.loc(n), show(vc), show(full)))
+            continue
+        if any(isinstance(d, ast.AugAssign) for d in stale):
+            undecided = True
+            ck.missing(rule + '.one-vector', '%s at %s: the weight vector is rescaled by an augmented assignment (%s); whether the value '
+                       'taken before it is a view that follows the update is not decided' % (what, mod.loc(n), u(stale[0])[:60]))
+            continue
+        d = sorted(stale, key=lambda x: getattr(x, 'lineno', 0))[0]
+        # where the stale value was taken: the definition of the consumed name that precedes the rebinding
+        taken = [site for site in fi.rd.defs_at(s, n.id) if site not in ('PARAM', 'UNBOUND')]
+        origin = u(taken[0])[:80] if taken and n.id != W else 'the value `%s` held before' % W
+        ck.bad(rule + '.one-vector', mod, n, F, 'stale weight vector consumed: %s' % what,
+               '%s consumes `%s`, whose elements are those of the weight vector BEFORE it is rebound by `%s` (line %s) [%s], while other '
+               'parts of the estimate (%s) read the vector after that rebinding: marginals and joints are computed from two different '
+               'weight vectors, so the result depends on the scale of the weights, is not bounded by the marginal entropies and differs '
+               'from the count-based estimator for un-normalised uniform weights' % (
+                   role, n.id, u(d)[:80], getattr(d, 'lineno', '?'), origin,
+                   '; '.join('`%s`' % u(s2)[:50] for n2, s2, vc2 in cons if d in vc2)[:200]))
+    if undecided:
+        return
+    # ---- the value-changing definitions: normalisation to unit sum
+    rn = rule + '.normalised'
+    norm_defs = sorted((d for d in full if d != 'PARAM'), key=lambda x: getattr(x, 'lineno', 0))
+    recognised = 0
+    for d in norm_defs:
+        if isinstance(d, ast.AugAssign):
+            tgt, val, op = d.target, d.value, d.op
+            src = tgt if isinstance(tgt, ast.Name) else None
+            if src is None or not isinstance(op, ast.Div):
+                continue
+            den = val
+        else:
+            tn = [t.id for t in d.targets if isinstance(t, ast.Name)] if isinstance(d, ast.Assign) else \
+                ([d.target.id] if isinstance(getattr(d, 'target', None), ast.Name) else [])
+            v = fi.def_value(d, tn[0]) if tn else None
+            if not (isinstance(v, ast.BinOp) and isinstance(v.op, ast.Div)):
+                continue
+            src = _same_elements(v.left)
+            den = v.right
+            if src is None:
+                continue
+        x = src.id
+        dx = fi.expand(den, stop=(x,))
+        # the denominator must be computed from the vector that is divided (same value)
+        alias = {m.id for m in ast.walk(dx) if isinstance(m, ast.Name) and m.id not in _MODULE_ALIASES and m.id != x
+                 and V.vclass(m.id, d) is not None and V.vclass(m.id, d) == V.vclass(x, d)}
+        if alias:
+            class R(ast.NodeTransformer):
+                def visit_Name(self, m):
+                    return ast.copy_location(ast.Name(id=x, ctx=m.ctx), m) if m.id in alias else m
+            dx = R().visit(copy.deepcopy(dx))
+        verdict = classify(dx, _l1_forms(x), scope={x})
+        if verdict[0] == 'far' and const_value(canon(dx)) is not None:
+            continue                        # a constant rescaling, not the normalisation
+        if ck.decide(verdict, rn, mod, d, F, 'weights normalised by `%s`' % _cx(dx)[:80],
+                     'the weight vector is divided by its sum (unit L1 norm)',
+                     'the weights must be normalised to unit SUM (they are probabilities of the frames: marginals and joints must add '
+                     'up to 1); another norm leaves a scale factor in every probability'):
+            recognised += 1
+        if verdict[0] != 'match':
+            continue
+        # conditions under which this normalisation is skipped
+        last = cons[-1][1]
+        guards = [a for a in fi.cfg.nodes if isinstance(a, Assume) and fi.cfg.dominates(a, d) and not fi.cfg.dominates(a, last)]
+        if not guards:
+            continue
+        if len(guards) > 1:
+            ck.missing(rn, 'the normalisation `%s` of weighted_mi is nested in %d conditions' % (u(d)[:60], len(guards)))
+            continue
+        g = guards[0]
+        gx = canon(fi.expand(g.test, stop=(x,)))
+        names = {m.id for m in ast.walk(gx) if isinstance(m, ast.Name) and m.id not in _MODULE_ALIASES}
+        atoms = conjuncts(gx, g.polarity)
+        dec = None
+        if names == {x} and fi.rd.defs_at(g.owner, x) == fi.rd.defs_at(d, x) and atoms and len(atoms) == 1 and isinstance(atoms[0], Cmp):
+            a = atoms[0]
+            for lhs, rhs, cmp in ((a.lhs, a.rhs, a), (a.rhs, a.lhs, a.flipped())):
+                c = const_value(rhs)
+                if classify(lhs, _l1_forms(x))[0] == 'match' and isinstance(c, (int, float)) and not isinstance(c, bool) and c == 1:
+                    dec = cmp.op is ast.NotEq
+        if dec is None:
+            ck.missing(rn, 'condition `%s` under which weighted_mi normalises its weights not recognised' % _cx(gx)[:80])
+        else:
+            ck.check(dec, rn, mod, g.owner, F, 'normalisation skipped unless `%s`' % _cx(gx)[:80],
+                     'the normalisation is skipped only when the weights already sum to 1',
+                     'the normalisation may be skipped only when the weights already sum to 1; under this test weight vectors with '
+                     'another sum reach the estimate un-normalised')
+    if not recognised and not ck_has_bad(ck, rn):
+        ck.missing(rn, 'normalisation of the weight vector of weighted_mi to unit sum (no definition `w / w.sum()` reaches the estimate)')
+
+
+def ck_has_bad(ck, rule):
+    return any(o.get('rule') == rule and o.get('status') in ('VIOLATED', 'KNOWN-FINDING') for o in ck.obligations)
+
+
 def check(ck):
     d1_kernel(ck)
     d3_axes(ck)
@@ -2331,6 +2635,7 @@ def check(ck):
     d6_default_width(ck)
     d5_out_dtype(ck)
     d7_entropy(ck)
+    d9_weighted(ck)
     check_no_arg_mutation(ck, 'C18.D8.inputs-unmodified', [
         (MI, 'joint_counts'), (MI, 'mutual_information'), (MI, 'mi_matrix'),
         (MI, 'weighted_mi'), (MI, 'channel_capacity_normalization'),
